@@ -159,3 +159,54 @@ def role_scripts():
             for y in ROLE_NAMES:
                 out.append(ROLE_SKELETON % t.format(X=x, Y=y))
     return out
+
+
+# ---------------------------------------------------------------------------------------------
+# every relative reference form, in every data position, in framers of every schedule kind
+# (with and without a main frame / main framer)
+# ---------------------------------------------------------------------------------------------
+
+REF_SKELETON = """house h1
+framer fa be active first a
+  frame a
+    aux ax
+    aux mo as c1
+%(fa)s
+  frame a2 in a
+framer fi be inactive first i
+  frame i
+%(fi)s
+framer ax be aux first x
+  frame x
+%(ax)s
+framer sl be slave first s
+  frame s
+%(sl)s
+framer mo be moot first m
+  frame m
+%(mo)s
+"""
+REF_KINDS = ["fa", "fi", "ax", "sl", "mo"]
+REF_FORMS = ["d of frame main", "d of frame main of framer me", "d of frame main of framer main",
+             "d of frame main of framer fa", "d of frame main of framer", "d of framer main", "d of main",
+             "frame.main.d", "framer.main.d", "framer.me.frame.main.d", "framer.main.frame.main.d",
+             "framer.fa.frame.main.d", "d of frame me", "d of frame", "d of frame me of framer main",
+             "d of frame a of framer main", "d of actor", "d of actor of frame main", "d of actor me of frame main",
+             "framer.me.frame.main.actor.me.d", "d of me", "d of framer", "d of root", ".abs.d", "d"]
+REF_TEMPLATES = ["put 1 into {R}", "inc {R} with 1", "inc {R} by 1", "set {R} with 1", "set {R} to 1",
+                 "copy {R} into zz", "copy zz into {R}", "go next if {R} >= 1", "go next if {R} == zz",
+                 "go next if {R} is updated", "let me if {R} > 0", "do doer param for x in {R}",
+                 "do doer param per x {R}", "do doer param via {R}", "put 1 into x in {R}",
+                 "inc {R} from zz of frame main", "go next if zz +- 1 == {R}"]
+
+
+def reference_scripts():
+    out = []
+    for t in REF_TEMPLATES:
+        for r in REF_FORMS:
+            line = "    " + t.format(R=r)
+            for k in REF_KINDS:
+                d = {x: "" for x in REF_KINDS}
+                d[k] = line
+                out.append(REF_SKELETON % d)
+    return out
